@@ -1176,6 +1176,7 @@ class Emitter:
                 o.append('  VERIF_OBSERVE(%s);' % s.val(args[0])); return
             av = ', '.join(s.val(a) for a in args)
             call = '%s(%s)' % (s.fname(name), av)
+            if nm == 'bcmp': call = 'verif_bcmp(%s)' % av      # clang turns memcmp(...) == 0 into bcmp
             if s.uf_float and nm in ('sqrtf', 'sqrt', 'log2', 'log2f', 'logf', 'log', 'expf', 'exp', 'exp2f', 'exp2'):
                 call = 'VERIF_FUF1(%s, %s)' % (nm, av)
         else:
@@ -1583,6 +1584,7 @@ void _ZdlPv(uint8_t* p) { free(p); }
 void _ZdaPv(uint8_t* p) { free(p); }
 void _ZdlPvm(uint8_t* p, uint64_t n) { free(p); }
 void _ZdaPvm(uint8_t* p, uint64_t n) { free(p); }
+static inline uint32_t verif_bcmp(const uint8_t* a, const uint8_t* b, uint64_t n) { return (uint32_t)memcmp(a, b, n); }
 static inline void verif_memcpy(uint8_t* d, const uint8_t* s, uint64_t n) { if (n) { VERIF_CHK(d, n); VERIF_CHK(s, n); } memcpy(d, s, n); }
 static inline void verif_memmove(uint8_t* d, const uint8_t* s, uint64_t n) { if (n) { VERIF_CHK(d, n); VERIF_CHK(s, n); } memmove(d, s, n); }
 static inline void verif_memset(uint8_t* d, uint8_t c, uint64_t n) { if (n) { VERIF_CHK(d, n); } memset(d, c, n); }
